@@ -49,7 +49,7 @@ def adaptive_fit(vc, cfg):
     d = lsq.sym_inputs(vc, cfg, nf, ns, m)
     dt = object if vc.symbolic else float
     if cfg["neutral"] == "default":
-        neutral_arg, neutral = None, np.ones(nf)
+        neutral_arg, neutral = None, vc.const_array(np.ones(nf))  # exact ones: 1/3 is the rational third in the spec, as in the symbolic run of the code
     else:
         neutral = vc.array("neutral", (nf,))
         for j in range(nf):
